@@ -26,6 +26,7 @@ import (
 	"github.com/gnolang/gno/tm2/pkg/crypto/secp256k1"
 	"github.com/gnolang/gno/tm2/pkg/sdk"
 	"github.com/gnolang/gno/tm2/pkg/std"
+	stypes "github.com/gnolang/gno/tm2/pkg/store/types"
 
 	"verif/sim/kernel"
 	"verif/sim/simdb"
@@ -59,10 +60,14 @@ type node struct {
 	height int64 // last committed height
 	last   []byte
 	restarts int
+	prune    stypes.PruneStrategy
 }
 
-func openApp(disk *simdb.Disk) (*sdk.BaseApp, error) {
+func openApp(disk *simdb.Disk, prune ...stypes.PruneStrategy) (*sdk.BaseApp, error) {
 	opts := gnoland.TestAppOptions(disk.Open())
+	if len(prune) > 0 && prune[0] != "" {
+		opts.PruneStrategy = prune[0]
+	}
 	opts.SkipGenesisSigVerification = true
 	opts.GenesisTxResultHandler = gnoland.NoopGenesisTxResultHandler
 	a, err := gnoland.NewAppWithOptions(opts)
@@ -72,12 +77,15 @@ func openApp(disk *simdb.Disk) (*sdk.BaseApp, error) {
 	return a.(*sdk.BaseApp), nil
 }
 
-func newNode(name string, disk *simdb.Disk) (*node, error) {
-	app, err := openApp(disk)
+func newNode(name string, disk *simdb.Disk, prune ...stypes.PruneStrategy) (*node, error) {
+	app, err := openApp(disk, prune...)
 	if err != nil {
 		return nil, err
 	}
 	n := &node{name: name, mach: disk.M, disk: disk, app: app}
+	if len(prune) > 0 {
+		n.prune = prune[0]
+	}
 	n.height = app.LastBlockHeight()
 	n.last = app.LastCommitID().Hash
 	return n, nil
@@ -86,7 +94,7 @@ func newNode(name string, disk *simdb.Disk) (*node, error) {
 // restart drops the process (all in-memory caches) and reopens over the same disk.
 func (n *node) restart() error {
 	n.app.Close()
-	app, err := openApp(n.disk)
+	app, err := openApp(n.disk, n.prune)
 	if err != nil {
 		return err
 	}
